@@ -320,6 +320,27 @@ def c04d(ck, prog):
         hs = [decision.describe_deep(c.fn, c.args[1], 4) for c in ip]
         ok = ok and any("default_not_found" in h for h in hs)
         ck.ob(R, "final-node:proc+catch", ok, g.loc(None), "" if ok else "a final node's proc and catch are not both built from the node's fang list (%r / %r): a 404 under a mount would skip the fangs" % (srcs, hs), how="proc and catch = fangses.into_proc_with(handler | default_not_found)")
+        # ... on every path: each value the `proc` / `catch` field of the built node can hold is the result of into_proc_with
+        aggs = [(bi, st["r"]) for bi in sorted(g.live_blocks()) for st in g.blocks[bi]["st"] if st["k"] == "=" and st["r"][0] == "agg" and st["r"][1].get("adt", "").endswith("router::r#final::Node")]
+        for fld in ("proc", "catch"):
+            okf = bool(aggs)
+            bad = ""
+            for bi, r in aggs:
+                fields = r[1].get("fields") or []
+                if fld not in fields:
+                    okf = False
+                    continue
+                op = r[2][fields.index(fld)]
+                lv = paths.leaf_values(g, op) if op[0] in ("c", "m") else []
+                if not lv:
+                    okf = False
+                for leaf in lv:
+                    if not (leaf[0] == "call" and re.search(r"FangsList::into_proc_with$", leaf[1].callee or "")):
+                        okf = False
+                        bad = decision.describe_deep(g, ["c", [leaf[1], leaf[2]]], 3) if leaf[0] == "place" else (leaf[1].name if leaf[0] == "call" else str(leaf[0]))
+            ck.ob(R, "final-node:%s-always-through-the-fangs" % fld, okf, g.loc(None),
+                  "" if okf else "the `%s` of a final node can be `%s`, which is not built by the node's fang list: the responses it produces (for `catch`: the 404 of a request that runs past this node) run none of the "
+                  "fangs of the applications the path lies under" % (fld, bad), how="every value of Node.%s is fangses.into_proc_with(..)" % fld)
     else:
         ck.ob(R, "final-node:proc+catch", False, "", "From<base::Node> for final::Node not found")
 
